@@ -126,3 +126,72 @@ func siteTop(site []string) string {
 }
 
 var sampleMu sync.Mutex
+
+// pickRich chooses n of the candidate encodings for the expensive sweeps: the first one
+// (every field present) and then, greedily, the one that adds the most wire features not
+// yet covered — role kinds, and per length/count prefix whether it announces 0, 1 or
+// several elements — shorter encodings first among equals. Taking simply the first n distinct
+// encodings left message fields with multi-entry maps and arrays out of the fault sweeps.
+func pickRich(t *CType, evs []encVal, n int) []encVal {
+	if len(evs) <= n {
+		return evs
+	}
+	feats := make([]map[string]bool, len(evs))
+	for i, ev := range evs {
+		f := map[string]bool{}
+		roles := rolesOf(t, ev.V)
+		for k := 0; k < len(roles) && k < len(ev.B); k++ {
+			kind := roles[k].Kind
+			f[kind] = true
+			if (kind == "array.count" || kind == "map.count" || kind == "string.len") && k+3 < len(ev.B) && k+3 < len(roles) && roles[k+3].Kind == kind {
+				c := uint32(ev.B[k]) | uint32(ev.B[k+1])<<8 | uint32(ev.B[k+2])<<16 | uint32(ev.B[k+3])<<24
+				switch {
+				case c == 0:
+					f[kind+"=0"] = true
+				case c == 1:
+					f[kind+"=1"] = true
+				case c < 16:
+					f[kind+">=2"] = true
+				default:
+					f[kind+">=16"] = true
+				}
+				f[kind+"@"+roles[k].Path+fmt.Sprint(c >= 2)] = true
+				k += 3
+			}
+		}
+		feats[i] = f
+	}
+	covered := map[string]bool{}
+	used := make([]bool, len(evs))
+	var out []encVal
+	take := func(i int) {
+		used[i] = true
+		out = append(out, evs[i])
+		for k := range feats[i] {
+			covered[k] = true
+		}
+	}
+	take(0)
+	for len(out) < n {
+		best, bestGain := -1, -1
+		for i := range evs {
+			if used[i] {
+				continue
+			}
+			gain := 0
+			for k := range feats[i] {
+				if !covered[k] {
+					gain++
+				}
+			}
+			if gain > bestGain || (gain == bestGain && len(evs[i].B) < len(evs[best].B)) {
+				best, bestGain = i, gain
+			}
+		}
+		if best < 0 {
+			break
+		}
+		take(best)
+	}
+	return out
+}
